@@ -70,10 +70,10 @@ theorem C20_source_has_current_rule : Generated.variant = Variant.current := by 
 abbrev stepNow := step Generated.variant
 abbrev ReachableNow := Reachable Generated.variant
 
-theorem reach_cur {S : Spec} {s : State} (h : ReachableNow S s) : Reachable Variant.current S s :=
+theorem C20_reach_current {S : Spec} {s : State} (h : ReachableNow S s) : Reachable Variant.current S s :=
   C20_source_has_current_rule ▸ h
 
-theorem step_cur {S : Spec} {s s' : State} {ev : Event} (h : stepNow S s ev = some s') :
+theorem C20_step_current {S : Spec} {s s' : State} {ev : Event} (h : stepNow S s ev = some s') :
     step Variant.current S s ev = some s' := C20_source_has_current_rule ▸ h
 
 /-! ## the invariant, every event, every schedule -/
@@ -83,10 +83,10 @@ theorem C20_run_inv_init (S : Spec) : RunInv S init := runInv_init S
 /-- every enabled event — data arriving at any moment, the fuzzer's turn, each step of the extraction,
     each time-out — keeps the run invariant -/
 theorem C20_run_inv_step (S : Spec) (s s' : State) (ev : Event) (inv : RunInv S s)
-    (h : stepNow S s ev = some s') : RunInv S s' := runInv_step S s s' ev inv (step_cur h)
+    (h : stepNow S s ev = some s') : RunInv S s' := runInv_step S s s' ev inv (C20_step_current h)
 
 theorem C20_run_inv_reachable (S : Spec) (s : State) (h : ReachableNow S s) : RunInv S s :=
-  runInv_reachable S s (reach_cur h)
+  runInv_reachable S s (C20_reach_current h)
 
 /-- … in particular after any schedule given as a list of events -/
 theorem C20_run_inv_schedule (S : Spec) (evs : List Event) (s : State)
@@ -105,7 +105,7 @@ theorem C20_history_valid (S : Spec) (s : State) (h : ReachableNow S s) : Valid 
 
 /-- an event leaves the history alone or appends exactly one message: nothing is ever rewritten -/
 theorem C20_history_grows_stepwise (S : Spec) (s s' : State) (ev : Event) (h : stepNow S s ev = some s') :
-    s'.history = s.history ∨ ∃ m, s'.history = s.history ++ [m] := step_history S s s' ev (step_cur h)
+    s'.history = s.history ∨ ∃ m, s'.history = s.history ++ [m] := step_history S s s' ev (C20_step_current h)
 
 def toFc (m : Msg) : Fc.Msg := ⟨m.sender, m.recipient, m.type⟩
 
@@ -268,7 +268,7 @@ theorem C20_sent_exactly_once_in_order (S : Spec) (s : State) (h : ReachableNow 
     recorded (`_extends_history`) -/
 theorem C20_non_extending_tree_not_sent (S : Spec) (s s' : State) (cand : List Msg)
     (hx : extendsB s.history cand = false) (h : stepNow S s (.fuzzerTurn cand) = some s') : s' = s := by
-  have h := step_cur h
+  have h := C20_step_current h
   simp only [step, Variant.current, if_true, hx] at h
   split at h
   · simp at h; exact h.symm
@@ -298,7 +298,7 @@ theorem C20_fuzzer_msgs_satisfy (S : Spec) (s s' : State) (cand : List Msg)
     (h : stepNow S s (.fuzzerTurn cand) = some s') (hne : s' ≠ s) :
     ∃ m, s'.history = s.history ++ [m] ∧ S.ok s.history m = true ∧ m.opt ∈ S.forecast s.history ∧
       s.buffer = [] ∧ extendsB s.history cand = true ∧ cand.getLast?.map Msg.key = some m.key := by
-  have h := step_cur h
+  have h := C20_step_current h
   simp only [step, Variant.current, if_true] at h
   split at h
   · rename_i hc
@@ -364,14 +364,25 @@ theorem C20_accepted_remote_was_parsed_and_checked (S : Spec) (s : State) (h : R
   let r := valid_at S _ (C20_run_inv_reachable S s h).valid h1 m h2 e
   ⟨r.2.2.1 hm, r.1, r.2.1⟩
 
-/-- once failed (or finished) no event is enabled: the history is final -/
-theorem C20_failed_is_final (S : Spec) (s : State) (ev : Event) (h : s.failed.isSome = true ∨ s.finished = true) :
-    stepNow S s ev = none := by
-  apply step_dead
-  unfold live
-  rcases h with h | h
-  · cases hf : s.failed <;> simp [hf] at h ⊢
-  · simp [h]
+/-- once failed (or finished) the run takes no further step of its own: the only event still enabled is data
+    arriving from outside (the reader threads append at any time), which changes the buffer and nothing else —
+    history, party.send calls and the verdict are final -/
+theorem C20_failed_is_final (S : Spec) (s s' : State) (ev : Event)
+    (h : s.failed.isSome = true ∨ s.finished = true) (hs : stepNow S s ev = some s') :
+    (∃ f, ev = .recv f) ∧ s'.history = s.history ∧ s'.outbox = s.outbox ∧ s'.failed = s.failed ∧
+      s'.finished = s.finished ∧ s'.rejected = s.rejected ∧ s'.used = s.used := by
+  have hdead : live s = false := by
+    unfold live
+    rcases h with h | h
+    · cases hf : s.failed <;> simp [hf] at h ⊢
+    · simp [h]
+  by_cases hr : ∃ f, ev = .recv f
+  · obtain ⟨f, rfl⟩ := hr
+    have := step_recv_effect _ S s s' f hs
+    subst this
+    exact ⟨⟨f, rfl⟩, rfl, rfl, rfl, rfl, rfl, rfl⟩
+  · have := step_dead Generated.variant S s ev hdead (fun f hf => hr ⟨f, hf⟩)
+    simp [stepNow, this] at hs
 
 /-! ## fragmentation -/
 
@@ -418,7 +429,7 @@ theorem C20_recv_commutes_with_exStep (S : Spec) (s s1 s2 : State) (f : Frag)
           · simp only [stepNow, step, he]
             rw [if_pos ⟨by simpa [live] using hl, hc1.2⟩, hfn']
           · simp only [stepNow, step]
-            rw [if_pos ⟨by simpa [live] using hl, hc2.2⟩]
+            rw [if_pos hc2]
         · simp at h1
       · simp at h1
     · simp at h1
@@ -523,8 +534,17 @@ example : (runEvents Generated.variant exSpec init
     [.fuzzerTurn [exPing], .recv ⟨"Ex", "Fz", 7⟩, .exStart, .exStep, .exFinish]).map (fun s => (s.history.length, s.failed, s.buffer))
     = some (1, some .noParse, [⟨"Ex", "Fz", 7⟩]) := by decide
 
-/-- the fuzzer does not send while remote data is buffered; a dead run takes no event -/
+/-- the fuzzer does not send while remote data is buffered -/
 example : runEvents Generated.variant exSpec init [.recv ⟨"Ex", "Fz", 1⟩, .fuzzerTurn [exPing]] = none := by decide
+
+/-- hypotheses of `C20_failed_is_final`: after the failure above more data arrives; the verdict and the history
+    stay, a further step of the run itself is not enabled -/
+example : (runEvents Generated.variant exSpec init
+    [.fuzzerTurn [exPing], .recv ⟨"Ex", "Fz", 7⟩, .exStart, .exStep, .exFinish, .recv ⟨"Ex", "Fz", 1⟩]).map
+      (fun s => (s.history.length, s.failed, s.buffer.length))
+    = some (1, some .noParse, 2) := by decide
+example : runEvents Generated.variant exSpec init
+    [.fuzzerTurn [exPing], .recv ⟨"Ex", "Fz", 7⟩, .exStart, .exStep, .exFinish, .exStart] = none := by decide
 
 /-- two channels of one sender interleaved in the buffer (x→Fz, u→Fy, y→Fz): the extraction started by the
     first fragment reads "xy" of Ex→Fz across the fragment of Ex→Fy, which stays buffered -/
